@@ -213,8 +213,15 @@ impl Opcode for JumpI {
         // immediate, allowing us to actually alter the program counter
         match util::validate_jump_destination(&counter, vm) {
             Ok(target) => {
+                // The forked thread starts by executing the instruction at the target, so the
+                // per-opcode iteration limit applies to it just as it does when stepping there
+                let target_at_visit_limit =
+                    vm.state()?.visited_instructions().at_visit_limit(target)?;
+
                 // We only want to fork up to the provided limit, so we check if we can first
-                if vm.jump_targets_mut().fork_to(instruction_pointer, target)? {
+                if !target_at_visit_limit
+                    && vm.jump_targets_mut().fork_to(instruction_pointer, target)?
+                {
                     // If we do have a valid jump target, we need to fork off an execution thread so
                     // that both branches can be executed. Note that the `VM` will step from the
                     // target, but as it is a JUMPDEST no-op this is fine.
